@@ -15,15 +15,16 @@ pub fn run_case(c: &Value) -> Value {
     let ps: Vec<BasicAuth<String>> = c["pairs"].as_array().unwrap().iter().map(pair).collect();
     let single = c["single"].as_bool().unwrap_or(false);
     let t = match (ps.len(), single) {
-        (1, true) => Ohkami::new((ps[0].clone(), "/".GET(inside))).test(),
-        (1, false) => Ohkami::new(([ps[0].clone()], "/".GET(inside))).test(),
-        (2, _) => Ohkami::new(([ps[0].clone(), ps[1].clone()], "/".GET(inside))).test(),
-        (3, _) => Ohkami::new(([ps[0].clone(), ps[1].clone(), ps[2].clone()], "/".GET(inside))).test(),
-        (4, _) => Ohkami::new(([ps[0].clone(), ps[1].clone(), ps[2].clone(), ps[3].clone()], "/".GET(inside))).test(),
+        (1, true) => Ohkami::new((ps[0].clone(), "/".GET(inside).POST(inside).PUT(inside).PATCH(inside).DELETE(inside))).test(),
+        (1, false) => Ohkami::new(([ps[0].clone()], "/".GET(inside).POST(inside).PUT(inside).PATCH(inside).DELETE(inside))).test(),
+        (2, _) => Ohkami::new(([ps[0].clone(), ps[1].clone()], "/".GET(inside).POST(inside).PUT(inside).PATCH(inside).DELETE(inside))).test(),
+        (3, _) => Ohkami::new(([ps[0].clone(), ps[1].clone(), ps[2].clone()], "/".GET(inside).POST(inside).PUT(inside).PATCH(inside).DELETE(inside))).test(),
+        (4, _) => Ohkami::new(([ps[0].clone(), ps[1].clone(), ps[2].clone(), ps[3].clone()], "/".GET(inside).POST(inside).PUT(inside).PATCH(inside).DELETE(inside))).test(),
         _ => panic!("harness: 1..4 pairs"),
     };
     RAN.store(false, Ordering::SeqCst);
-    let mut req = TestRequest::GET("/");
+    let mut req = match c["method"].as_str().unwrap_or("GET") { "GET" => TestRequest::GET("/"), "POST" => TestRequest::POST("/"), "PUT" => TestRequest::PUT("/"), "PATCH" => TestRequest::PATCH("/"),
+        "DELETE" => TestRequest::DELETE("/"), "HEAD" => TestRequest::HEAD("/"), "OPTIONS" => TestRequest::OPTIONS("/"), m => panic!("harness: method {m}") };
     if let Some(a) = c["auth"].as_str() { req = req.header("Authorization", string(unhex(a))) }
     let (status, challenge) = rt().block_on(async {
         let res = t.oneshot(req).await;
